@@ -285,8 +285,15 @@ def api_sequence(t0: int, k: int, o0: int, n0: int, o1: int, n1: int, o2: int, n
 # run here) and compile-time rejections / backend failures placed by the
 # harness.
 
+from edb.pgsql import params as _pg_params
+# computed once, outside tracing: the dataclass default factory reads build
+# metadata from disk on every call (CrossHair bypasses functools caches)
+_RUNTIME_PARAMS = _pg_params.get_default_runtime_params()
+
+
 def _ctx(state, expect_rollback: bool):
     return C.CompileContext(
+        backend_runtime_params=_RUNTIME_PARAMS,
         compiler_state=CSTATE, state=state, output_format=enums.OutputFormat.BINARY,
         expected_cardinality_one=False, protocol_version=defines.CURRENT_PROTOCOL,
         expect_rollback=expect_rollback)
